@@ -214,6 +214,9 @@ QUERIES = [
     # compilation of a constant call) between compiling its FROM clause and resolving its column references
     ("SELECT vp_yield('c', 3) AS y, account, number FROM (SELECT account, number, date FROM #postings)", None),
     ("SELECT number, vp_yield('c', 4) AS y, account FROM (SELECT date, number, account FROM #postings)", None),
+    # 26-27: BALANCES / JOURNAL with a compile-phase yield inside the FROM expression, different WHERE clauses
+    ("BALANCES FROM year >= vp_yield('c', 1900) WHERE account ~ 'Expenses'", None),
+    ("BALANCES FROM year >= vp_yield('c', 1901) WHERE account ~ 'Assets'", None),
 ]
 OUTPUT_PHASE = (8, 9)
 
@@ -265,7 +268,7 @@ def run(ctx):
             other = ledgers.connect(*ledgers.gen_ledger(rng, ntxn=rng.range(3, 6))[1:])    # a different ledger
         before = audit_fingerprint(shared)
         entries_before = ledgers.entries_snapshot(entries)
-        fixed = [(0, 0), (0, 3), (8, 8), (12, 13), (14, 15), (15, 16), (19, 19), (20, 21), (17, 18), (24, 25), (22, 23), (10, 1), (9, 9), (3, 3), (8, 9), (0, 1), (10, 2),
+        fixed = [(0, 0), (0, 3), (8, 8), (12, 13), (14, 15), (15, 16), (19, 19), (20, 21), (17, 18), (24, 25), (22, 23), (26, 27), (10, 1), (9, 9), (3, 3), (8, 9), (0, 1), (10, 2),
                  (11, 2), (12, 12), (13, 12), (21, 20), (17, 17)]
         pairs = rng.shuffle(list(itertools.product(range(len(QUERIES)), repeat=2)))
         if not ctx.thorough():
@@ -329,9 +332,9 @@ def run(ctx):
             diff = next(((a, b) for a, b in zip(entries_before, entries_after) if a != b), None)
             ctx.record_violation('shared-state-written', 'the loaded directives (shared by every connection over them) were changed by '
                                  'executing statements: %r' % (diff,), payload={'ledger': text})
-        # unscheduled stress (testing)
-        if ctx.thorough():
-            for rep in range(30):
+        # unscheduled stress (testing): free-running threads, statements given as text (parsed in the threads)
+        if True:
+            for rep in range(30 if ctx.thorough() else 4):
                 queries = [QUERIES[0][0], QUERIES[3][0], QUERIES[1][0]]
                 params = [None, None, None]
                 conns = [shared, shared, shared]
